@@ -1248,6 +1248,99 @@ impl CscMatrix<F> {
 //@end
 }
 
+//@enum file=src/algebra/error_types.rs name=MatrixConcatenationError rules=R12 derive="PartialEq, Eq, Clone, Copy, Structural"
+impl CscMatrix<F> {
+//@fn file=src/algebra/csc/core.rs in="ShapedMatrix for CscMatrix<T>" name=ncols rules=R1 ret=r
+//@contract
+    ensures r == self.n
+//@end
+//@fn file=src/algebra/csc/block_concatenate.rs in="BlockConcatenate for CscMatrix<T>" name=blockdiag rules=R1,R29,zipidx:1=i;2=i;3=i;4=i ret=r
+//@contract
+    requires bd_pre(mats@),
+    ensures
+        // C16 (block-diagonal concatenation): block b occupies rows rs(b).. and columns cs(b)..; its entries keep their order and values
+        mats@.len() == 0 <==> r is Err,
+        r matches Ok(R) ==> bd_post(mats@, R),
+//@pre
+        let ghost ms = mats@;
+        let ghost nb = mats@.len() as int;
+        proof { assert(mats@.len() == mats.len()); }
+//@iter 1
+it0
+//@loop 1
+            invariant
+                it0.seq().len() == r14_n1, range_from_u(it0.seq(), 0), r14_n1 == nb, ms == mats@, nb == mats@.len(), bd_pre(ms),
+                nrows == bd_rs(ms, it0.index@ as int), ncols == bd_cs(ms, it0.index@ as int), nnzM == bd_bs(ms, it0.index@ as int),
+//@body_start 1
+            proof { let k = it0.index@ as int; assert(bd_blk_ok(*ms[k])); lemma_bd_mono(ms, k + 1, nb); }
+//@before "let mut nextcol = 0;" #1
+        proof { assert(bd_counts(ms, M.colptr@, 0)) by { lemma_bd_mono(ms, 0, 0); } }
+//@iter 2
+it1
+//@loop 2
+            invariant
+                it1.seq().len() == r14_n2, range_from_u(it1.seq(), 0), r14_n2 == nb, ms == mats@, nb == mats@.len(), bd_pre(ms), nb > 0,
+                nextcol == bd_cs(ms, it1.index@ as int), bd_counts(ms, M.colptr@, it1.index@ as int),
+                M.m == bd_rs(ms, nb), M.n == bd_cs(ms, nb), M.rowval@.len() == bd_bs(ms, nb), M.nzval@.len() == bd_bs(ms, nb),
+//@body_start 2
+            let ghost gk = it1.index@ as int;
+            let ghost cp1 = M.colptr@;
+            proof {
+                assert(bd_blk_ok(*ms[gk])); lemma_bd_mono(ms, gk + 1, nb); lemma_bd_mono(ms, gk, gk);
+                assert forall|i: int| 0 <= i < ms[gk].n implies ms[gk].colptr@[i] <= #[trigger] ms[gk].colptr@[i + 1] by { }
+                assert forall|i: int| 0 <= i < ms[gk].n implies #[trigger] cp1[nextcol + i] + ms[gk].colptr@[ms[gk].n as int] <= usize::MAX by {
+                    assert(cp1[bd_cs(ms, gk) + i] == 0); lemma_bd_mono(ms, gk + 1, nb);
+                }
+            }
+//@after "M.colcount_block(mat, nextcol, MatrixShape::N);"
+            proof { lemma_bd_count_step(ms, cp1, M.colptr@, gk); }
+//@before "M.colcount_to_colptr();"
+        let ghost cnt = M.colptr@;
+        proof { lemma_bd_total(ms, cnt); }
+//@after "M.colcount_to_colptr();"
+        let ghost st = M.colptr@;
+        proof {
+            assert(bd_starts_ok(ms, st)) by {
+                assert forall|b: int, i: int| 0 <= b < ms.len() && 0 <= i <= ms[b].n implies #[trigger] st[bd_cs(ms, b) + i] == bd_bs(ms, b) + ms[b].colptr@[i] by {
+                    lemma_bd_starts(ms, cnt, b, i); lemma_bd_mono(ms, b + 1, nb); lemma_bd_mono(ms, b, b);
+                }
+            }
+            assert(bd_filled(ms, st, M, 0));
+        }
+//@iter 3
+it2
+//@loop 3
+            invariant
+                it2.seq().len() == r14_n3, range_from_u(it2.seq(), 0), r14_n3 == nb, ms == mats@, nb == mats@.len(), bd_pre(ms),
+                it2.index@ > 0 ==> r29_m1 is Some,
+                forall|b: int| 0 <= b < it2.index@ ==> r29_m1 is Some && #[trigger] ms[b].rowval@.len() <= r29_m1->Some_0,
+//@body_start 3
+            proof { assert(bd_blk_ok(*ms[it2.index@ as int])); }
+//@iter 4
+it3
+//@loop 4
+            invariant
+                it3.seq().len() == r14_n4, range_from_u(it3.seq(), 0), r14_n4 == nb, ms == mats@, nb == mats@.len(), bd_pre(ms), nb > 0,
+                nextrow == bd_rs(ms, it3.index@ as int), nextcol == bd_cs(ms, it3.index@ as int),
+                bd_starts_ok(ms, st), bd_filled(ms, st, M, it3.index@ as int), st[0] == 0,
+                M.m == bd_rs(ms, nb), M.n == bd_cs(ms, nb),
+                forall|b: int| 0 <= b < nb ==> #[trigger] ms[b].rowval@.len() <= dummymap@.len(),
+//@body_start 4
+            let ghost gk = it3.index@ as int;
+            let ghost K1 = M;
+            proof {
+                assert(bd_blk_ok(*ms[gk])); lemma_bd_mono(ms, gk + 1, nb); lemma_bd_mono(ms, gk, gk);
+                lemma_bd_fill_pre(ms, st, K1, gk);
+            }
+//@after "M.fill_block(mat, &mut dummymap, nextrow, nextcol, MatrixShape::N);"
+            proof { lemma_bd_fill_step(ms, st, K1, M, dummymap@, gk); }
+//@before "M.backshift_colptrs();"
+        let ghost K4 = M;
+//@after "M.backshift_colptrs();"
+        proof { lemma_bd_final(ms, st, K4, M); }
+//@end
+}
+
 // ---- KKT assembly, upper-triangle layout: the three fills that place P, its missing diagonal entries and A' ----
 pub open spec fn pcnt(P: CscMatrix<F>, c: int) -> int { P.colptr@[c + 1] - P.colptr@[c] }
 pub open spec fn mdn(P: CscMatrix<F>, c: int) -> int { if missing_diag(P, c) { 1int } else { 0int } }
@@ -1956,6 +2049,217 @@ pub proof fn lemma_psym_step(A: CscMatrix<F>, ip: Seq<usize>, tg: Seq<usize>, n:
     }
     assert forall|j: int| 0 <= j < k + 1 implies v2[tpos(tg, j)] == #[trigger] A.nzval@[j] by {
         if j < k { lemma_tpos_distinct(tg, j, k, n); lemma_tpos_range(tg, j, n); assert(v1[tpos(tg, j)] == A.nzval@[j]); }
+    }
+}
+
+
+// ---- block-diagonal concatenation ----
+pub open spec fn bd_rs(ms: Seq<&CscMatrix<F>>, b: int) -> int decreases b { if b <= 0 { 0 } else { bd_rs(ms, b - 1) + ms[b - 1].m } }
+pub open spec fn bd_cs(ms: Seq<&CscMatrix<F>>, b: int) -> int decreases b { if b <= 0 { 0 } else { bd_cs(ms, b - 1) + ms[b - 1].n } }
+pub open spec fn bd_bs(ms: Seq<&CscMatrix<F>>, b: int) -> int decreases b { if b <= 0 { 0 } else { bd_bs(ms, b - 1) + ms[b - 1].rowval@.len() } }
+pub open spec fn bd_blk_ok(M: CscMatrix<F>) -> bool { M.colptr_ok_u() && forall|k: int| 0 <= k < M.rowval@.len() ==> #[trigger] M.rowval@[k] < M.m }
+pub open spec fn bd_pre(ms: Seq<&CscMatrix<F>>) -> bool {
+    &&& forall|b: int| 0 <= b < ms.len() ==> bd_blk_ok(*#[trigger] ms[b])
+    &&& bd_rs(ms, ms.len() as int) <= usize::MAX && bd_cs(ms, ms.len() as int) < usize::MAX && 2 * bd_bs(ms, ms.len() as int) <= usize::MAX
+}
+pub open spec fn bd_post(ms: Seq<&CscMatrix<F>>, R: CscMatrix<F>) -> bool {
+    let nb = ms.len() as int;
+    &&& R.m == bd_rs(ms, nb) && R.n == bd_cs(ms, nb) && R.colptr@.len() == R.n + 1 && R.rowval@.len() == bd_bs(ms, nb) && R.nzval@.len() == bd_bs(ms, nb)
+    &&& forall|b: int, i: int| 0 <= b < nb && 0 <= i <= ms[b].n ==> #[trigger] R.colptr@[bd_cs(ms, b) + i] == bd_bs(ms, b) + ms[b].colptr@[i]
+    &&& forall|b: int, j: int| 0 <= b < nb && 0 <= j < ms[b].rowval@.len() ==> #[trigger] R.rowval@[bd_bs(ms, b) + j] == ms[b].rowval@[j] + bd_rs(ms, b)
+    &&& forall|b: int, j: int| 0 <= b < nb && 0 <= j < ms[b].rowval@.len() ==> #[trigger] R.nzval@[bd_bs(ms, b) + j] == ms[b].nzval@[j]
+}
+
+
+pub proof fn lemma_bd_mono(ms: Seq<&CscMatrix<F>>, a: int, b: int)
+    requires 0 <= a <= b <= ms.len(),
+    ensures bd_rs(ms, a) <= bd_rs(ms, b), bd_cs(ms, a) <= bd_cs(ms, b), bd_bs(ms, a) <= bd_bs(ms, b), 0 <= bd_rs(ms, a), 0 <= bd_cs(ms, a), 0 <= bd_bs(ms, a),
+    decreases b,
+{ if a < b { lemma_bd_mono(ms, a, b - 1); } else if a > 0 { lemma_bd_mono(ms, a - 1, a - 1); } }
+// counts after the first k blocks have been counted: block b < k has its column counts in place, everything from cs(k) on is still 0
+pub open spec fn bd_counts(ms: Seq<&CscMatrix<F>>, cp: Seq<usize>, k: int) -> bool {
+    &&& cp.len() == bd_cs(ms, ms.len() as int) + 1
+    &&& forall|b: int, i: int| 0 <= b < k && 0 <= i < ms[b].n ==> #[trigger] cp[bd_cs(ms, b) + i] == pcnt(*ms[b], i)
+    &&& forall|c: int| bd_cs(ms, k) <= c < cp.len() ==> #[trigger] cp[c] == 0
+}
+#[verifier::spinoff_prover]
+pub proof fn lemma_bd_count_step(ms: Seq<&CscMatrix<F>>, cp1: Seq<usize>, cp2: Seq<usize>, k: int)
+    requires
+        bd_pre(ms), 0 <= k < ms.len(), bd_counts(ms, cp1, k), cp2.len() == cp1.len(),
+        colptr_same_except(cp2, cp1, bd_cs(ms, k), bd_cs(ms, k) + ms[k].n),
+        forall|i: int| 0 <= i < ms[k].n ==> #[trigger] cp2[bd_cs(ms, k) + i] == cp1[bd_cs(ms, k) + i] + (ms[k].colptr@[i + 1] - ms[k].colptr@[i]),
+    ensures bd_counts(ms, cp2, k + 1),
+{
+    lemma_bd_mono(ms, k + 1, ms.len() as int);
+    assert forall|b: int, i: int| 0 <= b < k + 1 && 0 <= i < ms[b].n implies #[trigger] cp2[bd_cs(ms, b) + i] == pcnt(*ms[b], i) by {
+        lemma_bd_mono(ms, b, b); lemma_bd_mono(ms, k + 1, ms.len() as int);
+        if b < k {
+            lemma_bd_mono(ms, b + 1, k);
+            assert(bd_cs(ms, b + 1) == bd_cs(ms, b) + ms[b].n);
+            assert(cp1[bd_cs(ms, b) + i] == pcnt(*ms[b], i));
+            assert(cp2[bd_cs(ms, b) + i] == cp1[bd_cs(ms, b) + i]);
+        }
+        else { assert(bd_cs(ms, k + 1) == bd_cs(ms, k) + ms[k].n); assert(cp1[bd_cs(ms, k) + i] == 0); }
+    }
+}
+// the prefix sums of the counts are the block starts
+pub proof fn lemma_bd_starts(ms: Seq<&CscMatrix<F>>, cnt: Seq<usize>, b: int, i: int)
+    requires bd_pre(ms), bd_counts(ms, cnt, ms.len() as int), 0 <= b < ms.len(), 0 <= i <= ms[b].n,
+    ensures sum_upto(cnt, bd_cs(ms, b) + i) == bd_bs(ms, b) + ms[b].colptr@[i],
+    decreases b, i,
+{
+    assert(bd_blk_ok(*ms[b]));
+    lemma_bd_mono(ms, b, b); lemma_bd_mono(ms, b + 1, ms.len() as int);
+    assert(bd_cs(ms, b + 1) == bd_cs(ms, b) + ms[b].n);
+    if i > 0 {
+        lemma_bd_starts(ms, cnt, b, i - 1);
+        assert(cnt[bd_cs(ms, b) + (i - 1)] == pcnt(*ms[b], i - 1));
+        assert(sum_upto(cnt, bd_cs(ms, b) + i) == sum_upto(cnt, bd_cs(ms, b) + i - 1) + cnt[bd_cs(ms, b) + i - 1]);
+    } else if b > 0 {
+        assert(bd_blk_ok(*ms[b - 1]));
+        lemma_bd_starts(ms, cnt, b - 1, ms[b - 1].n as int);
+        assert(bd_cs(ms, b) == bd_cs(ms, b - 1) + ms[b - 1].n);
+        assert(bd_bs(ms, b) == bd_bs(ms, b - 1) + ms[b - 1].rowval@.len());
+        assert(ms[b - 1].colptr@[ms[b - 1].n as int] == ms[b - 1].rowval@.len());
+        assert(ms[b].colptr@[0] == 0);
+    } else {
+        assert(ms[0].colptr@[0] == 0);
+    }
+}
+pub proof fn lemma_bd_total(ms: Seq<&CscMatrix<F>>, cnt: Seq<usize>)
+    requires bd_pre(ms), bd_counts(ms, cnt, ms.len() as int), ms.len() > 0,
+    ensures sum_upto(cnt, cnt.len() as int) == bd_bs(ms, ms.len() as int),
+{
+    let nb = ms.len() as int;
+    assert(bd_blk_ok(*ms[nb - 1]));
+    lemma_bd_starts(ms, cnt, nb - 1, ms[nb - 1].n as int);
+    let n = bd_cs(ms, nb);
+    assert(cnt[n] == 0);
+    assert(sum_upto(cnt, n + 1) == sum_upto(cnt, n) + cnt[n]);
+}
+// every column belongs to a block
+pub proof fn lemma_bd_col_block(ms: Seq<&CscMatrix<F>>, k: int, c: int) -> (bi: (int, int))
+    requires 0 <= k <= ms.len(), 0 <= c < bd_cs(ms, k),
+    ensures 0 <= bi.0 < k, 0 <= bi.1 < ms[bi.0].n, bd_cs(ms, bi.0) + bi.1 == c,
+    decreases k,
+{
+    lemma_bd_mono(ms, k - 1, k - 1);
+    if c >= bd_cs(ms, k - 1) { (k - 1, c - bd_cs(ms, k - 1)) } else { lemma_bd_col_block(ms, k - 1, c) }
+}
+// state of the fill pass after the first k blocks; `st` = the column starts produced by colcount_to_colptr
+pub open spec fn bd_filled(ms: Seq<&CscMatrix<F>>, st: Seq<usize>, K: CscMatrix<F>, k: int) -> bool {
+    let nb = ms.len() as int;
+    &&& K.arrays_ok() && K.colptr@.len() == st.len() && st.len() == bd_cs(ms, nb) + 1 && K.rowval@.len() == bd_bs(ms, nb)
+    &&& forall|b: int, i: int| 0 <= b < k && 0 <= i < ms[b].n ==> #[trigger] K.colptr@[bd_cs(ms, b) + i] == st[bd_cs(ms, b) + i + 1]
+    &&& forall|b: int, i: int| k <= b < nb && 0 <= i < ms[b].n ==> #[trigger] K.colptr@[bd_cs(ms, b) + i] == st[bd_cs(ms, b) + i]
+    &&& K.colptr@[bd_cs(ms, nb)] == st[bd_cs(ms, nb)]
+    &&& forall|b: int, j: int| 0 <= b < k && 0 <= j < ms[b].rowval@.len() ==> #[trigger] K.rowval@[bd_bs(ms, b) + j] == ms[b].rowval@[j] + bd_rs(ms, b)
+    &&& forall|b: int, j: int| 0 <= b < k && 0 <= j < ms[b].rowval@.len() ==> #[trigger] K.nzval@[bd_bs(ms, b) + j] == ms[b].nzval@[j]
+}
+pub open spec fn bd_starts_ok(ms: Seq<&CscMatrix<F>>, st: Seq<usize>) -> bool {
+    forall|b: int, i: int| 0 <= b < ms.len() && 0 <= i <= ms[b].n ==> #[trigger] st[bd_cs(ms, b) + i] == bd_bs(ms, b) + ms[b].colptr@[i]
+}
+#[verifier::spinoff_prover]
+pub proof fn lemma_bd_fill_pre(ms: Seq<&CscMatrix<F>>, st: Seq<usize>, K: CscMatrix<F>, k: int)
+    requires bd_pre(ms), 0 <= k < ms.len(), bd_starts_ok(ms, st), bd_filled(ms, st, K, k),
+    ensures fill_block_pre(K, *ms[k], bd_rs(ms, k) as usize, bd_cs(ms, k) as usize, MatrixShape::N),
+{
+    let M = *ms[k]; let nb = ms.len() as int;
+    assert(bd_blk_ok(M));
+    lemma_bd_mono(ms, k + 1, nb); lemma_bd_mono(ms, k, k);
+    assert forall|i: int, j: int| #[trigger] M.in_col_u(j, i) implies dest_n(K, M, bd_cs(ms, k), i, j) < K.rowval@.len() by {
+        assert(K.colptr@[bd_cs(ms, k) + i] == st[bd_cs(ms, k) + i]);
+        assert(st[bd_cs(ms, k) + i] == bd_bs(ms, k) + M.colptr@[i]);
+        assert(M.colptr@[i + 1] <= M.colptr@[M.n as int]);
+    }
+    assert forall|i1: int, j1: int, i2: int, j2: int| #[trigger] M.in_col_u(j1, i1) && #[trigger] M.in_col_u(j2, i2) && j1 != j2
+        implies dest_n(K, M, bd_cs(ms, k), i1, j1) != dest_n(K, M, bd_cs(ms, k), i2, j2) by {
+        assert(K.colptr@[bd_cs(ms, k) + i1] == st[bd_cs(ms, k) + i1]); assert(K.colptr@[bd_cs(ms, k) + i2] == st[bd_cs(ms, k) + i2]);
+        assert(st[bd_cs(ms, k) + i1] == bd_bs(ms, k) + M.colptr@[i1]); assert(st[bd_cs(ms, k) + i2] == bd_bs(ms, k) + M.colptr@[i2]);
+    }
+    assert forall|q: int| 0 <= q < M.rowval@.len() implies #[trigger] M.rowval@[q] + bd_rs(ms, k) <= usize::MAX by { }
+}
+// a slot of an earlier block is not a destination of any entry of block k
+pub proof fn lemma_bd_free(ms: Seq<&CscMatrix<F>>, st: Seq<usize>, K1: CscMatrix<F>, k: int, b: int, j: int)
+    requires bd_pre(ms), 0 <= b < k < ms.len(), 0 <= j < ms[b].rowval@.len(), bd_starts_ok(ms, st), bd_filled(ms, st, K1, k),
+    ensures fb_free(K1, *ms[k], bd_cs(ms, k), MatrixShape::N, ms[k].rowval@.len() as int, bd_bs(ms, b) + j),
+{
+    reveal(fb_free);
+    let M = *ms[k]; let cs = bd_cs(ms, k); let bs = bd_bs(ms, k);
+    lemma_bd_mono(ms, b + 1, k);
+    assert forall|i2: int, j2: int| #[trigger] M.in_col_u(j2, i2) && j2 < M.rowval@.len() implies fb_dest(K1, M, cs, MatrixShape::N, i2, j2) != bd_bs(ms, b) + j by {
+        assert(K1.colptr@[cs + i2] == st[cs + i2]); assert(st[cs + i2] == bs + M.colptr@[i2]);
+    }
+}
+#[verifier::spinoff_prover]
+pub proof fn lemma_bd_fill_step(ms: Seq<&CscMatrix<F>>, st: Seq<usize>, K1: CscMatrix<F>, K2: CscMatrix<F>, map: Seq<usize>, k: int)
+    requires
+        bd_pre(ms), 0 <= k < ms.len(), bd_starts_ok(ms, st), bd_filled(ms, st, K1, k),
+        fill_block_state(K1, K2, *ms[k], map, bd_rs(ms, k) as usize, bd_cs(ms, k) as usize, MatrixShape::N, ms[k].rowval@.len() as int),
+        K2.arrays_ok(), K2.rowval@.len() == K1.rowval@.len(), K2.colptr@.len() == K1.colptr@.len(),
+    ensures bd_filled(ms, st, K2, k + 1),
+{
+    let M = *ms[k]; let nb = ms.len() as int; let cs = bd_cs(ms, k); let bs = bd_bs(ms, k); let nnz = M.rowval@.len() as int;
+    assert(bd_blk_ok(M));
+    lemma_bd_mono(ms, k + 1, nb); lemma_bd_mono(ms, k, k);
+    assert forall|b: int, i: int| 0 <= b < k + 1 && 0 <= i < ms[b].n implies #[trigger] K2.colptr@[bd_cs(ms, b) + i] == st[bd_cs(ms, b) + i + 1] by {
+        lemma_bd_mono(ms, b, b); lemma_bd_mono(ms, b + 1, nb); assert(bd_cs(ms, b + 1) == bd_cs(ms, b) + ms[b].n);
+        if b < k {
+            lemma_bd_mono(ms, b + 1, k);
+            assert(K1.colptr@[bd_cs(ms, b) + i] == st[bd_cs(ms, b) + i + 1]);
+            assert(K2.colptr@[bd_cs(ms, b) + i] == K1.colptr@[bd_cs(ms, b) + i]);
+        }
+        else {
+            assert(K2.colptr@[cs + i] == K1.colptr@[cs + i] + pushed_n(M, i, nnz));
+            assert(M.colptr@[i + 1] <= M.colptr@[M.n as int]);
+            assert(K1.colptr@[cs + i] == st[cs + i]);
+            assert(st[cs + i] == bs + M.colptr@[i]); assert(st[cs + (i + 1)] == bs + M.colptr@[i + 1]);
+        }
+    }
+    assert forall|b: int, i: int| k + 1 <= b < nb && 0 <= i < ms[b].n implies #[trigger] K2.colptr@[bd_cs(ms, b) + i] == st[bd_cs(ms, b) + i] by {
+        lemma_bd_mono(ms, k + 1, b); lemma_bd_mono(ms, b, b); lemma_bd_mono(ms, b + 1, nb); assert(bd_cs(ms, b + 1) == bd_cs(ms, b) + ms[b].n);
+        assert(bd_cs(ms, k + 1) == cs + M.n);
+        assert(K1.colptr@[bd_cs(ms, b) + i] == st[bd_cs(ms, b) + i]);
+        assert(K2.colptr@[bd_cs(ms, b) + i] == K1.colptr@[bd_cs(ms, b) + i]);
+    }
+    // the entries of block k
+    assert forall|j: int| 0 <= j < nnz implies K2.rowval@[bs + j] == #[trigger] M.rowval@[j] + bd_rs(ms, k) by {
+        let i = lemma_col_of_entry(M, j);
+        assert(M.in_col_u(j, i));
+        assert(K1.colptr@[cs + i] == st[cs + i]); assert(st[cs + i] == bs + M.colptr@[i]);
+        assert(dest_n(K1, M, cs, i, j) == bs + j);
+    }
+    assert forall|j: int| 0 <= j < nnz implies K2.nzval@[bs + j] == #[trigger] M.nzval@[j] by {
+        let i = lemma_col_of_entry(M, j);
+        assert(M.in_col_u(j, i));
+        assert(K1.colptr@[cs + i] == st[cs + i]); assert(st[cs + i] == bs + M.colptr@[i]);
+        assert(dest_n(K1, M, cs, i, j) == bs + j);
+    }
+    assert forall|b: int, j: int| 0 <= b < k + 1 && 0 <= j < ms[b].rowval@.len() implies #[trigger] K2.rowval@[bd_bs(ms, b) + j] == ms[b].rowval@[j] + bd_rs(ms, b) by {
+        if b < k { lemma_bd_mono(ms, b + 1, k); lemma_bd_mono(ms, b, b); lemma_bd_free(ms, st, K1, k, b, j); assert(K1.rowval@[bd_bs(ms, b) + j] == ms[b].rowval@[j] + bd_rs(ms, b)); }
+    }
+    assert forall|b: int, j: int| 0 <= b < k + 1 && 0 <= j < ms[b].rowval@.len() implies #[trigger] K2.nzval@[bd_bs(ms, b) + j] == ms[b].nzval@[j] by {
+        if b < k { lemma_bd_mono(ms, b + 1, k); lemma_bd_mono(ms, b, b); lemma_bd_free(ms, st, K1, k, b, j); assert(K1.nzval@[bd_bs(ms, b) + j] == ms[b].nzval@[j]); }
+    }
+    assert(K2.colptr@[bd_cs(ms, nb)] == K1.colptr@[bd_cs(ms, nb)]);
+}
+#[verifier::spinoff_prover]
+pub proof fn lemma_bd_final(ms: Seq<&CscMatrix<F>>, st: Seq<usize>, K: CscMatrix<F>, R: CscMatrix<F>)
+    requires
+        bd_pre(ms), ms.len() > 0, bd_starts_ok(ms, st), bd_filled(ms, st, K, ms.len() as int), st[0] == 0,
+        // backshift_colptrs (its contract)
+        R.colptr@.len() == K.colptr@.len(), R.colptr@[0] == 0, R.rowval@ == K.rowval@, R.nzval@ == K.nzval@, R.m == K.m, R.n == K.n,
+        forall|c: int| 1 <= c < K.colptr@.len() ==> #[trigger] R.colptr@[c] == K.colptr@[c - 1],
+        K.m == bd_rs(ms, ms.len() as int), K.n == bd_cs(ms, ms.len() as int),
+    ensures bd_post(ms, R),
+{
+    let nb = ms.len() as int;
+    assert forall|c: int| 0 <= c < st.len() implies R.colptr@[c] == st[c] by {
+        if c >= 1 { let bi = lemma_bd_col_block(ms, nb, c - 1); assert(K.colptr@[bd_cs(ms, bi.0) + bi.1] == st[bd_cs(ms, bi.0) + bi.1 + 1]); }
+    }
+    assert forall|b: int, i: int| 0 <= b < nb && 0 <= i <= ms[b].n implies #[trigger] R.colptr@[bd_cs(ms, b) + i] == bd_bs(ms, b) + ms[b].colptr@[i] by {
+        lemma_bd_mono(ms, b + 1, nb); lemma_bd_mono(ms, b, b);
+        assert(st[bd_cs(ms, b) + i] == bd_bs(ms, b) + ms[b].colptr@[i]);
     }
 }
 
